@@ -157,6 +157,8 @@ class MerkleCache(object):
         self.length = 0
         self.level = []
         self.depth_higher = 0
+        # Incremented by truncate(); the underlying hashes may change from then on
+        self.generation = 0
         self.initialized = Event()
 
     def _segment_length(self):
@@ -174,14 +176,16 @@ class MerkleCache(object):
 
     async def _extend_to(self, length):
         '''Extend the length of the cache if necessary.'''
-        if length <= self.length:
-            return
-        # Start from the beginning of any final partial segment.
-        # Retain the value of depth_higher; in practice this is fine
-        start = self._leaf_start(self.length)
-        hashes = await self.source_func(start, length - start)
-        self.level[start >> self.depth_higher:] = self._level(hashes)
-        self.length = length
+        while length > self.length:
+            # Start from the beginning of any final partial segment.
+            # Retain the value of depth_higher; in practice this is fine
+            generation, cur_length = self.generation, self.length
+            start = self._leaf_start(cur_length)
+            hashes = await self.source_func(start, length - start)
+            # Discard the hashes if the cache was truncated or extended whilst waiting
+            if generation == self.generation and cur_length == self.length:
+                self.level[start >> self.depth_higher:] = self._level(hashes)
+                self.length = length
 
     async def _level_for(self, length):
         '''Return a (level_length, final_hash) pair for a truncation
@@ -209,6 +213,7 @@ class MerkleCache(object):
             raise TypeError('length must be an integer')
         if length <= 0:
             raise ValueError('length must be positive')
+        self.generation += 1
         if length >= self.length:
             return
         length = self._leaf_start(length)
@@ -230,6 +235,20 @@ class MerkleCache(object):
         if index >= length:
             raise ValueError('index must be less than length')
         await self.initialized.wait()
+        while True:
+            # Retry if truncate() was called, e.g. because of a reorg, whilst waiting for the
+            # source: the result could mix hashes from before and after
+            generation = self.generation
+            try:
+                result = await self._branch_and_root(length, index, tsc_format)
+            except ValueError:
+                if generation == self.generation:
+                    raise
+            else:
+                if generation == self.generation:
+                    return result
+
+    async def _branch_and_root(self, length, index, tsc_format):
         await self._extend_to(length)
         leaf_start = self._leaf_start(index)
         count = min(self._segment_length(), length - leaf_start)
